@@ -111,7 +111,15 @@ func loadImports(sys fs.FS, topPkg string, top *token) (pkgs pkgList, err error)
 	return res, nil
 }
 
-func loadPackage(sys fs.FS, topPkg string) (pkgList, error) {
+// recoverLoad turns a panic while reading the argument package (e.g. a malformed package clause) into a load error.
+func recoverLoad(pkgs *pkgList, err *error) {
+	if r := recover(); r != nil {
+		*pkgs, *err = nil, fmt.Errorf("%v", r)
+	}
+}
+
+func loadPackage(sys fs.FS, topPkg string) (pkgs pkgList, err error) {
+	defer recoverLoad(&pkgs, &err)
 	p, err := rawLoadPackage(sys, topPkg)
 	if err != nil {
 		return nil, fmt.Errorf("error in loadPackage: %w", err)
@@ -120,7 +128,8 @@ func loadPackage(sys fs.FS, topPkg string) (pkgList, error) {
 	return loadImports(sys, topPkg, p)
 }
 
-func loadFile(sys fs.FS, fname string) (pkgList, error) {
+func loadFile(sys fs.FS, fname string) (pkgs pkgList, err error) {
+	defer recoverLoad(&pkgs, &err)
 	p, err := rawLoadFile(sys, fname, false)
 	if err != nil {
 		return nil, fmt.Errorf("error in loadFile: %w", err)
